@@ -139,6 +139,11 @@ impl<'a> Model<'a> {
             }
         };
         *self.expansions.entry(path.to_string()).or_insert(0) += 1;
+        if self.expansions[path] > 1 && file.items.iter().any(|i| matches!(i, Item::IncFn { via: Via::ConstPath, .. })) {
+            // the rendering declares a constant per such item: a second splice
+            // re-declares it, which is an error of the test program itself
+            return Err(Stop::Unspecified("file declaring a path constant spliced twice".to_string()));
+        }
         self.touched.insert(path.to_string());
         if file.once {
             self.once_done.insert(path.to_string());
@@ -168,13 +173,13 @@ impl<'a> Model<'a> {
                     }
                 },
                 Item::IncFn { kind, spelling, start, len, via } => {
-                    let needs_defs = !matches!(via, Via::Direct);
+                    let needs_defs = !matches!(via, Via::Direct | Via::ConstPath);
                     if needs_defs && !self.case.defs_path.as_ref().map(|d| self.expansions.contains_key(d)).unwrap_or(false) {
                         return Err(Stop::Unspecified("definitions file not included before use".to_string()));
                     }
                     let container = match via {
                         // the path string stands in the file itself
-                        Via::Direct | Via::Arg | Via::NestedArg => path.to_string(),
+                        Via::Direct | Via::Arg | Via::NestedArg | Via::ConstPath => path.to_string(),
                         _ => match &self.case.defs_path {
                             Some(d) if self.expansions.contains_key(d) => d.clone(),
                             _ => return Err(Stop::Unspecified("definitions file not included before use".to_string())),
